@@ -1,6 +1,7 @@
 package main
 
 import (
+	"bytes"
 	"net"
 
 	"github.com/insomniacslk/dhcp/dhcpv4"
@@ -100,6 +101,15 @@ func genPkt4(r *Rng, inDomain bool) *dhcpv4.DHCPv4 {
 	p.ServerHostName = string(sn)
 	p.BootFileName = string(fn)
 	p.Options = make(dhcpv4.Options)
+	if inDomain && r.Chance(1, 400) {
+		// an encoding beyond one UDP datagram: 17..20 values of the domain's largest
+		// size; every field is inside the encodable domain and the round trip is a
+		// function of the bytes, not of what a network could carry (seeded change C01-14)
+		for k := r.Range(17, 20); k > 0; k-- {
+			p.Options[uint8(100+k)] = r.Bytes(4096)
+		}
+		return p
+	}
 	nopts := r.Range(0, 12)
 	if r.Chance(1, 10) {
 		nopts = 0
@@ -122,6 +132,9 @@ func genPkt4(r *Rng, inDomain bool) *dhcpv4.DHCPv4 {
 			v = nil
 		}
 		p.Options[uint8(code)] = v
+	}
+	if inDomain && r.Chance(1, 12) {
+		sizePkt4(p, pkt4Sizes[r.Intn(len(pkt4Sizes))])
 	}
 	return p
 }
@@ -154,6 +167,48 @@ func rawOptsArea(r *Rng, valid bool) []byte {
 	}
 	return out
 }
+
+// sizePkt4 adds filler options (codes 224, 225) so that the packet's encoding is
+// exactly `target` bytes long - the sizes an implementation may treat specially: the
+// 300-byte BOOTP minimum and its neighbours, 576 (the minimum datagram every host
+// accepts, nclient4's and many a buffer's size) and its neighbours, 1024, 1472/1500
+// (Ethernet), 4096 (seeded change C01-13: an encoder handing out its pooled scratch
+// array exactly when the encoding filled it).  False if the target cannot be met.
+func sizePkt4(p *dhcpv4.DHCPv4, target int) bool {
+	cost := func(v int) int { return v + 2*max(1, (v+254)/255) }
+	delete(p.Options, 224)
+	delete(p.Options, 225)
+	base := 240 + 1
+	for k, v := range p.Options {
+		if k == 0 || k == 255 {
+			continue
+		}
+		base += cost(len(v))
+	}
+	need := target - base
+	if need < 2 {
+		return false
+	}
+	for v := need; v >= 0; v-- {
+		if cost(v) == need {
+			p.Options[224] = bytes.Repeat([]byte{0x5a}, v)
+			return true
+		}
+	}
+	for v1 := 0; v1 <= 3; v1++ {
+		rest := need - cost(v1)
+		for v := rest; v >= 0; v-- {
+			if cost(v) == rest {
+				p.Options[224] = bytes.Repeat([]byte{0x5a}, v)
+				p.Options[225] = make([]byte, v1)
+				return true
+			}
+		}
+	}
+	return false
+}
+
+var pkt4Sizes = []int{300, 301, 302, 512, 548, 575, 576, 576, 576, 577, 1024, 1472, 1500, 1501, 4096}
 
 // genWire4 generates wire bytes for the decoder: encoder output, hand-laid
 // valid packets, and malformed variants (truncation, length perturbation,
